@@ -76,10 +76,14 @@ def _unpack_stoichiometries(
         if isinstance(v, Derived):
             raise NotImplementedError
 
-        if v < 0:
-            substrates[k] = int(-v)
+        n = int(v)
+        if n != v:
+            msg = f"Stoichiometric coefficient of {k} must be a whole number, got {v}"
+            raise ValueError(msg)
+        if n < 0:
+            substrates[k] = -n
         else:
-            products[k] = int(v)
+            products[k] = n
     return substrates, products
 
 
